@@ -11,6 +11,11 @@ SSO_TRUST = [
     "net/http form parsing, encoding/xml decoding, gorilla/mux routing are not modelled (the harness derives the model's input from them)",
 ]
 
+CB_TRUST = [
+    "Model.Callback is a hand-written model of callbackHandleFunc / loginResponse / makeResponse / makeAssertion / createSignature: tied by source fingerprints (theorem *_source_current) and by the cb correspondence (model vs implementation on every generated callback request); NameID, attribute list and key check are the go2lean-generated definitions",
+    "encoding/xml marshalling of the message, html/template and the redirect URL are not part of this model (C17/C18); the harness decodes replies with an independent token-level parser",
+]
+
 PROPS = {
     "C16": {
         "modules": ["SamlModel.Props.C16"],
@@ -55,6 +60,22 @@ PROPS = {
         "translated": ["GetAcsUrlAndBindingForResponse", "checkRequestRequiredContent"],
         "trusted_base": COMMON_TRUST + SSO_TRUST + [
             "that the implementation writes exactly one reply and calls CreateAuthRequest at most once is observed by the harness (reply parser counts documents/forms; storage call log), the model's Result holds one of each by construction",
+        ],
+        "assumptions": [],
+    },
+    "C01": {
+        "modules": ["SamlModel.Props.C01"],
+        "translated": ["getResponseCert", "Attributes_GetSAML", "Attributes_GetNameID"],
+        "trusted_base": COMMON_TRUST + CB_TRUST,
+        "assumptions": ["Done() is owned by storage: the history theorem models completion as the only operation that sets it"],
+    },
+    "C03": {
+        "modules": ["SamlModel.Props.C03"],
+        "translated": ["Attributes_GetSAML", "Attributes_GetNameID", "getResponseCert"],
+        "trusted_base": COMMON_TRUST + CB_TRUST + [
+            "time.Now/Format are inputs of the model (issueInstant, untilInstant); C03_window is stated for any formatter/parser with the stated granularity law; the harness brackets IssueInstant with the wall clock",
+            "uuid.New is assumed not to repeat (C03_ids takes injectivity of the ID source as hypothesis); the '_'+uuid shape is checked by the harness on every reply",
+            "Go map iteration order of custom attributes is the order of the list in the model (universally quantified); the harness compares the custom part sorted",
         ],
         "assumptions": [],
     },
